@@ -60,7 +60,8 @@ def compare(res, name, m, ref, x, dev, rank0=1):
         clause = 'canonical-differs'
     shape = ''.join('d' if c.isdigit() else 'a' if c.isalpha() else 's' if c.isspace() else 'p' for c in x[:30]) if isinstance(x, str) else 'nonstr'
     res.viol(ID, clause, name, 'validate', {'module': name, 'number': x, 'devclass': dev}, 'validate(%r) -> %r, reference -> %r' % (x, a if a is not None else o[1:], b),
-             'agreement', excinfo='len%d' % len(x), devclass=dev, rank=[rank0, len(x), x])
+             'agreement', excinfo='len%d:%s' % (len(x), 'rejected' if a is None else 'ascii-result' if a.isascii() else 'nonascii-result'),
+             devclass=dev, rank=[rank0, len(x), x])
     return 1
 
 
